@@ -178,7 +178,25 @@ func (s *C14) Run(c *scen.Ctx) {
 		case 1, 2:
 			a.apply("add", []endpoint.Endpoint{universe[simrt.Draw(nU, "c14.which")]})
 		default:
-			a.apply("remove", []endpoint.Endpoint{universe[simrt.Draw(nU, "c14.which")]})
+			// endpoints are identified by host: the descriptor handed to Remove may be a newer
+			// one of the same host (other port, time-out, qos, set; other weight when weights are not in use)
+			e := universe[simrt.Draw(nU, "c14.which")]
+			switch simrt.Draw(4, "c14.descr") {
+			case 1:
+				e.Port += 7
+				e.Timeout = 1234
+				c.Count("probe.remove_with_newer_descriptor", 1)
+			case 2:
+				e.Qos, e.SetId, e.Grid = 3, "a.b.c", 2
+				c.Count("probe.remove_with_newer_descriptor", 1)
+			case 3:
+				if !weighted {
+					e.Weight += 13
+					c.Count("probe.remove_with_newer_descriptor", 1)
+				}
+			}
+			e.Key = e.String()
+			a.apply("remove", []endpoint.Endpoint{e})
 		}
 	}
 	if len(a.set) == 0 {
